@@ -662,6 +662,13 @@ class Env:
         err = None
         rep = None
         thy = self.theory.thy
+        self.installed_log = []
+        orig_add = thy.add_theorem
+
+        def add_theorem(name, th):          # harness-side hook on this Theory object only
+            orig_add(name, th)
+            self.installed_log.append(name)
+        thy.add_theorem = add_theorem
         try:
             with time_limit(30):
                 rep = thy.checked_extend(exts)
@@ -677,6 +684,8 @@ class Env:
             if thy.has_theorem(n):
                 installed.append((n, self.dec(thy.get_theorem(n, svar=False))))
         axioms = None if rep is None else [(n, self.dec(t)) for n, t in rep.get_axioms()]
+        del thy.add_theorem
+        self.last_installed = list(self.installed_log)
         return installed, axioms, err
 
 
@@ -718,6 +727,55 @@ def line_check(case):
     return sexp.dumps(["check", bool(ng), bool(co), lvl, FUEL, s_thms(case["thms"]), [s_item(i) for i in case["items"]]])
 
 
+def line_hcheck(case):
+    """The same case for the heap model: the object graph itself (objects by index)."""
+    g = case.get("graph") or to_graph(case["items"])
+    inames = list(g["items"])
+    pnames = list(g["proofs"])
+    ii = {n: k for k, n in enumerate(inames)}
+    pi = {n: k for k, n in enumerate(pnames)}
+    hitems = []
+    for n in inames:
+        id_, rule, args, prevs, th, sub = g["items"][n]
+        hitems.append([list(id_), sexp.enc(rule), s_arg(args), [list(q) for q in prevs],
+                       "N" if th is None else s_seq(th), "N" if sub is None else pi[sub]])
+    hproofs = [[ii[x] for x in g["proofs"][n]] for n in pnames]
+    ng, co, lvl = case["cfg"]
+    return sexp.dumps(["hcheck", bool(ng), bool(co), lvl, FUEL, s_thms(case["thms"]), hitems, hproofs, pi[g["root"]]])
+
+
+def parse_hcheck(line, lvl, case):
+    if line in ("bad-op", "(crash)", "(timeout)"):
+        return (line,)
+    x = sexp.loads(line)
+    if x[0] == "err":
+        return ("err", x[1])
+    w = walked(case["items"])
+    tree = sorted((p_ints(p), p_seq(t)) for p, t in x[2] if p_ints(p) in w)
+    evals = []
+    for pos, rule, comp, th in x[4]:
+        k = toy_kind(sexp.dec(rule))
+        if k and k[0] == "macro" and k[1] <= lvl and comp != "N":
+            evals.append((sexp.dec(rule), p_seq(comp)))
+    pairs = [(p_ints(p), int(i)) for p, i in x[5]]
+    return ("ok", p_seq(x[1]), tree, [p_seq(g) for g in x[3]], sorted(evals), pairs)
+
+
+def same_heap_result(m, r):
+    if m[0] != r[0]:
+        return False
+    if m[0] == "err":
+        return coarse(m[1]) == coarse(r[1])
+    if m[0] != "ok":
+        return False
+    canon = lambda q: None if q is None else (tuple(sorted(set(q[0]))), q[1])
+    return (canon(m[1]) == canon(r[1]) and [(p, canon(t)) for p, t in m[2]] == sorted((p, canon(t)) for p, t in r[2])
+            and [canon(g) for g in m[3]] == [canon(g) for g in r[3]]
+            and sorted((n, canon(t)) for n, t in m[4]) == sorted((n, canon(t)) for n, t in r[4])
+            # accepted walks are trees: no object at two walked positions
+            and len({i for _, i in m[5]}) == len(m[5]))
+
+
 def line_extend(case):
     exts = []
     for x in case["exts"]:
@@ -751,7 +809,8 @@ def parse_check(line, lvl):
         k = toy_kind(sexp.dec(rule))
         if k and k[0] == "macro" and k[1] <= lvl and comp != "N":
             evals.append((sexp.dec(rule), p_seq(comp)))
-    return ("ok", p_seq(x[1]), tree, [p_seq(g) for g in x[3]], sorted(evals))
+    trusted = [p_seq(th) for pos, rule, comp, th in x[4] if comp == "N" and sexp.dec(rule) != "sorry"]
+    return ("ok", p_seq(x[1]), tree, [p_seq(g) for g in x[3]], sorted(evals), trusted)
 
 
 def parse_extend(line):
@@ -780,10 +839,14 @@ def ref_can_prove(r, t):
     return r[1] == t[1] and set(r[0]) <= set(t[0])
 
 
-def ref_check(items, thms, no_gaps, level, keep="stated"):
+def ref_check(items, thms, no_gaps, level, keep="stated", compute_only=False, trusted=None):
     """Replay in document order. Citations are positions (that is how the implementation resolves
     them); identifiers carried by the items play no role.  Raises Flag when the proof is not
-    justified; returns (final sequent or None, gaps)."""
+    justified; returns (final sequent or None, gaps, computed sequent of the last line).
+    compute_only: a stated sequent is taken on trust (collected in `trusted`), the contents of a
+    `subproof` block are still replayed; what is derived is derived from the trusted statements."""
+    if trusted is None:
+        trusted = []
     verified = {}
     present = set()
     gaps = []
@@ -824,6 +887,14 @@ def ref_check(items, thms, no_gaps, level, keep="stated"):
             if no_gaps:
                 raise Flag("gap-tolerated-with-no-gaps", "sorry at %s" % (pos,))
             gaps.append(st)
+            verified[pos] = st
+            return
+        if compute_only and st is not None:
+            if rule == "subproof":
+                if sub is None:
+                    raise Flag("rule-failed", "block without contents at %s" % (pos,))
+                block(sub, pos)
+            trusted.append(st)
             verified[pos] = st
             return
         if rule == "theorem":
@@ -900,13 +971,13 @@ def judge_check(ctx, case, res):
     stores today) or the computed ones; an accepted run is fine when one replay justifies it (so a
     checker that returned / handed on the stronger computed sequents would not be reported)."""
     ng, co, lvl = case["cfg"]
-    if res[0] != "ok" or co:
+    if res[0] != "ok":
         return False
     first = None
     for keep in ("stated", "computed"):
         bad = None
         try:
-            final, gaps, final_comp = ref_check(case["items"], case["thms"], ng, lvl, keep=keep)
+            final, gaps, final_comp = ref_check(case["items"], case["thms"], ng, lvl, keep=keep, compute_only=co)
             if res[1] is not None and not any(x is not None and ref_can_prove(x, res[1]) for x in (final, final_comp)):
                 bad = ("result-not-verified", "returned %s, replay gives %s (computed %s)" % (res[1], final, final_comp))
             elif ng and res[3]:
@@ -929,24 +1000,26 @@ def same_seq(a, b):
 
 
 def judge_extend(ctx, env, case, res):
-    """Admitted as proved (installed, proof supplied, not listed as axiom) only if the proof alone is
-    accepted with no gaps and concludes the stated theorem."""
+    """Every theorem extension that was installed (in order, names may repeat and overwrite): without
+    proof -> reported as axiom; with proof -> the proof alone, in the table as it was at that moment
+    (a dict: later statements replace earlier ones), is justified, gap-free and concludes the theorem."""
     installed, axioms, err = res
-    inst = dict(installed)
-    thms = list(case["thms"])
+    table = {n: mk(s[0], s[1]) for n, s in case["thms"]}
+    theorem_exts = [x for x in case["exts"] if x != "other"]
+    log = list(getattr(env, "last_installed", []))
     filed = False
-    for x in case["exts"]:
-        if x == "other":
-            continue
+    for k, x in enumerate(theorem_exts):
+        if k >= len(log):
+            break
         _, name, s, items = x
         st = mk(s[0], s[1])
-        is_in = name in inst and same_seq(inst[name], st)
-        listed = axioms is not None and any(n == name for n, _ in axioms)
-        if is_in and items is None and axioms is not None and not listed:
-            ctx.violation("extend:axiom-not-reported", "checked_extend installed %s without proof and without reporting an axiom" % name,
-                          {"kind": "extend", "case": case})
-            filed = True
-        if is_in and items is not None and not listed:
+        thms = [[n, [list(t[0]), t[1]]] for n, t in table.items()]
+        if items is None:
+            if axioms is not None and not any(n == name and same_seq(t, st) for n, t in axioms):
+                ctx.violation("extend:axiom-not-reported", "checked_extend installed %s without proof and without reporting an axiom" % name,
+                              {"kind": "extend", "case": case})
+                filed = True
+        else:
             reason = None
             try:
                 final, gaps, _ = ref_check(items, thms, True, 0)
@@ -956,17 +1029,19 @@ def judge_extend(ctx, env, case, res):
                     reason = "wrong-conclusion"
             except Flag as f:
                 reason = "proof-not-justified:" + f.cls
-            if reason is None:
-                alone = env.check({"cfg": [True, False, 0], "thms": thms, "items": items})
-                if alone[0] != "ok":
-                    reason = "proof-rejected-alone"
             if reason:
                 ctx.violation("extend:admitted-unproved:" + reason,
-                              "checked_extend admitted %s : %s as proved, but %s" % (name, st, reason),
+                              "checked_extend admitted %s : %s as proved, but %s (table then: %s)" % (name, st, reason, thms),
                               {"kind": "extend", "case": case, "reason": reason})
                 filed = True
-        if is_in:
-            thms.append([name, [list(st[0]), st[1]]])
+        table[name] = st
+    # what the theory holds afterwards is the last statement installed under each name
+    final_tab = {n: t for n, t in installed}
+    for n, t in table.items():
+        if n in final_tab and not same_seq(final_tab[n], t):
+            ctx.violation("extend:table-not-last-write", "after checked_extend the theory holds %s under %s, last installed was %s" % (final_tab[n], n, t),
+                          {"kind": "extend", "case": case})
+            filed = True
     return filed
 
 
@@ -1523,11 +1598,27 @@ def gen_extend_pool(rng, n):
 # =============================================================================================
 # 7. Streams
 # =============================================================================================
-def stream_check(ctx, env, cases, label, oracle=True):
-    """Correspondence + oracle for a batch of check_proof cases."""
+def stream_check(ctx, env, cases, label, oracle=True, heap=False):
+    """Correspondence + oracle for a batch of check_proof cases.  heap=True: the heap model (walk
+    over the object graph) is run on the same cases as a third party."""
     impl = [env.check(c) for c in cases]
     out = ctx.lean_driver(EXE, [line_check(c) for c in cases], timeout=3000) if cases else []
     ndis = 0
+    if heap and cases:
+        hout = ctx.lean_driver(EXE, [line_hcheck(c) for c in cases], timeout=3000)
+        nh = 0
+        if hout is None:
+            ctx.broken("correspondence:c02:driver", "model driver unavailable")
+        else:
+            for idx, case in enumerate(cases):
+                hm = parse_hcheck(hout[idx], case["cfg"][2], case)
+                ctx.count("heap:%s" % label)
+                if not same_heap_result(hm, impl[idx]):
+                    nh += 1
+                    if nh <= 3:
+                        ctx.broken("correspondence:c02:heap:%s" % label, "case=%s impl=%s heap-model=%s" % (json.dumps(case), impl[idx], hm))
+                        ctx.coverage["disagreements_checked"] += 1
+            ctx.log("stream %s (heap model): %d cases, %d disagreements" % (label, len(cases), nh))
     for idx, case in enumerate(cases):
         res = impl[idx]
         nontriv = len(case["items"]) >= 2 and any(it[3] for it in case["items"])
@@ -1538,6 +1629,17 @@ def stream_check(ctx, env, cases, label, oracle=True):
             m = parse_check(out[idx], case["cfg"][2])
             if m[0] == "err" and res[0] == "err" and m[1] != res[1]:
                 ctx.count("refusal-message-class-differs(not compared)")
+            if m[0] == "ok" and res[0] == "ok":
+                # the model's ghost output "taken on trust" against the reference checker's own list
+                tr = []
+                try:
+                    ref_check(case["items"], case["thms"], case["cfg"][0], case["cfg"][2], compute_only=case["cfg"][1], trusted=tr)
+                    cn = lambda q: (tuple(sorted(set(q[0]))), q[1])
+                    if sorted(map(cn, tr)) != sorted(map(cn, m[5])) and ndis < 3:
+                        ndis += 1
+                        ctx.broken("correspondence:c02:trusted", "case=%s oracle=%s model=%s" % (json.dumps(case), tr, m[5]))
+                except Flag:
+                    pass
             if not same_result(m, res, case):
                 ndis += 1
                 if ndis <= 3:
@@ -1588,19 +1690,23 @@ def same_result(m, r, case=None):
 
 
 def stream_extend(ctx, env, cases, label):
-    impl = [env.extend(c) for c in cases]
+    impl = []
+    for c in cases:
+        r = env.extend(c)
+        impl.append(r)
+        judge_extend(ctx, env, c, r)
     out = ctx.lean_driver(EXE, [line_extend(c) for c in cases], timeout=3000) if cases else []
     ndis = 0
-    canon = lambda l: None if l is None else [(n, (tuple(sorted(set(s[0]))), s[1])) for n, s in l]
+    canon_l = lambda l: None if l is None else [(n, (tuple(sorted(set(s[0]))), s[1])) for n, s in l]
+    canon = lambda l: None if l is None else sorted(canon_l(l))
     for idx, case in enumerate(cases):
         res = impl[idx]
         ctx.case(("extend", json.dumps(case, sort_keys=True)), nontrivial=any(x != "other" and x[3] is not None for x in case["exts"]))
         ctx.count("%s:%s" % (label, res[2] or "ok"))
-        judge_extend(ctx, env, case, res)
         if out is not None:
             m = parse_extend(out[idx])
             ok = (m[0] != "bad-op" and canon(m[0]) == canon(res[0]) and coarse(m[2]) == coarse(res[2])
-                  and (res[1] is None or canon(m[1]) == canon(res[1])))
+                  and (res[1] is None or canon_l(m[1]) == canon_l(res[1])))
             if not ok:
                 ndis += 1
                 if ndis <= 3:
@@ -1887,9 +1993,9 @@ def run(ctx):
         ctx.broken("translate:c02:itemid", "untranslatable: %s" % e)
     except Exception as e:  # noqa
         ctx.broken("translate:c02:itemid", "untranslatable: %r" % e)
-    proofs_ok = ctx.lean_props(["Holpy.C02.Props"], exes=[EXE])
+    proofs_ok = ctx.lean_props(["Holpy.C02.Props", "Holpy.C02.PropsHeap"], exes=[EXE])
     if ctx.tier == "thorough" and proofs_ok:
-        ctx.lean_check_modules(["Holpy.C02.Props"])
+        ctx.lean_check_modules(["Holpy.C02.Props", "Holpy.C02.PropsHeap"])
     ctx.coverage["trusted_base"] += [
         "correspondence harness harness/props/c02.py (generators, toy rule set mirrored in Holpy/C02/Toy.lean, reference checker)",
         "Python->Lean translator for ItemID / Thm.can_prove (in harness/props/c02.py) and the Python primitives of Holpy/C02/Py.lean",
@@ -1897,7 +2003,7 @@ def run(ctx):
     ctx.assumptions += [
         "a proof object whose parts are shared between places reaches the model as its unfolding (argued in Model.lean, tested by the shared-* streams)",
         "Python's recursion limit is modelled by fuel; theorems hold for every fuel",
-        "compute_only=True trusts stated sequents by design: theorems and oracle are for compute_only=False, the mode is covered by correspondence only"]
+        "compute_only=True trusts stated sequents by design: compute_only_computes and the oracle say what is derived FROM the trusted statements, nothing about them"]
     try:
         env = Env(ctx)
         stream_itemid(ctx, env)
@@ -1905,7 +2011,7 @@ def run(ctx):
         # corpus first
         corp = corpus_cases(ctx)
         if corp.get("check"):
-            stream_check(ctx, env, corp["check"], "corpus")
+            stream_check(ctx, env, corp["check"], "corpus", heap=True)
         if corp.get("extend"):
             stream_extend(ctx, env, corp["extend"], "corpus-extend")
         # (a) exhaustive citations
@@ -1918,38 +2024,38 @@ def run(ctx):
         else:
             rng = ctx.rng("exh-sample")
             sample = list(gen_exh_citations(idvars=(0,), statedvars=(0,), sizes=(1, 2)))
-            for _ in range(2500):
+            for _ in range(2000):
                 sample.append(cite_case([rng.choice(CITE_MENUS) for _ in range(3)], 0, 0))
-            for _ in range(2500):
+            for _ in range(2000):
                 sample.append(cite_case([rng.choice(CITE_MENUS) for _ in range(rng.choice([1, 2, 3, 3]))],
                                         rng.randrange(4), rng.randrange(3)))
             stream_check(ctx, env, sample, "exh-cite")
         # (b) nesting, (c) statements
         nest = list(gen_exh_nesting())
         if ctx.tier == "quick":
-            nest = ctx.rng("nest").sample(nest, 5000)
+            nest = ctx.rng("nest").sample(nest, 3500)
         stream_check(ctx, env, nest, "exh-nest")
         stream_check(ctx, env, list(gen_exh_two_blocks()), "exh-blocks")
-        stream_check(ctx, env, list(gen_exh_gaps()), "exh-gaps")
-        stream_check(ctx, env, list(gen_shared_directed()), "shared-directed")
-        stream_check(ctx, env, gen_shared_random(ctx.rng("shared"), ctx.scale(1500, 30000)), "shared-random")
+        stream_check(ctx, env, list(gen_exh_gaps()), "exh-gaps", heap=True)
+        stream_check(ctx, env, list(gen_shared_directed()), "shared-directed", heap=True)
+        stream_check(ctx, env, gen_shared_random(ctx.rng("shared"), ctx.scale(1000, 20000)), "shared-random", heap=True)
         st = list(gen_exh_stated())
         if ctx.tier == "quick":
-            st = ctx.rng("stated").sample(st, min(len(st), 4000))
+            st = ctx.rng("stated").sample(st, min(len(st), 3000))
         for b in batches(iter(st), 40000):
             stream_check(ctx, env, b, "exh-stated")
         # (d) random
         g = RandGen(ctx.rng("random"))
         cases = []
-        for i in range(ctx.scale(4000, 120000)):
+        for i in range(ctx.scale(3000, 80000)):
             c, tags = g.case()
             cases.append(c)
             for t in tags:
                 ctx.count("perturb:" + t)
         for c in cases[:4]:
             ctx.sample(c)
-        for b in batches(iter(cases), 40000):
-            stream_check(ctx, env, b, "random")
+        for bi, b in enumerate(batches(iter(cases), 40000)):
+            stream_check(ctx, env, b, "random", heap=(bi == 0))
         # checked_extend
         n = ctx.scale(12, 30)
         thms, proofs = gen_extend_pool(ctx.rng("extend"), n)
@@ -1970,6 +2076,36 @@ def run(ctx):
             ecases.append({"thms": base, "exts": exts})
         stream_extend(ctx, env, ecases, "extend")
         ctx.sample(ecases[len(proofs) + 2])
+        # lists in which names repeat and overwrite each other (also a theorem of the base theory),
+        # with proofs by `theorem <name>` before and after the name was given a new statement
+        names = ["verif_a", "verif_b", "verif_t0"]
+        ocases = [{"thms": base, "exts": [["thm", "verif_a", [[], 0], None], ["thm", "verif_b", [[], 0], [[[0], "theorem", "verif_a", [], None, None]]],
+                                           ["thm", "verif_a", [[], 1], None], ["thm", "verif_c", [[], 0], [[[0], "theorem", "verif_a", [], None, None]]]]}]
+        for _ in range(ctx.scale(400, 6000)):
+            exts = []
+            cur = {"verif_t0": 0, "verif_t1": 1}
+            for k in range(r.randint(3, 6)):
+                nm = r.choice(names)
+                c = r.randrange(3)
+                kind = r.random()
+                if kind < 0.3:
+                    prf = None
+                elif kind < 0.5:
+                    prf = [[[0], "verif_ax", [[], c if r.random() < 0.8 else (c + 1) % 3], [], None, None]]
+                elif kind < 0.9:
+                    src = r.choice(names + ["verif_t1"])
+                    # aim at what `src` holds now, or at what it held before
+                    if src in cur and r.random() < 0.7:
+                        c = cur[src]
+                    prf = [[[0], "theorem", src, [], None, None]]
+                    if r.random() < 0.3:
+                        prf.append([[1], "verif_id", None, [[0]], None, None])
+                else:
+                    prf = [[[0], "sorry", None, [], [[], c], None]]
+                exts.append(["thm", nm, [[], c], prf])
+                cur[nm] = c      # optimistic; a refused extension ends the run anyway
+            ocases.append({"thms": base, "exts": exts})
+        stream_extend(ctx, env, ocases, "extend-overwrite")
     finally:
         if env is not None:
             env.close()
@@ -2001,25 +2137,34 @@ def replay(ctx, rp):
 
 MANIFEST = {
     "text": "Lean theorems about an executable model of _check_proof_item/check_proof/find_item/checked_extend with the rule layer as a "
-            "parameter (every rule set, every fuel, every proof object): accepted_justified + trace_covers (every statement that became "
-            "citable, every item reached through subproof blocks and the result have a derivation built in check order), no_gaps_exact / "
-            "no_gaps_justified (no placeholder at any depth incl. expansions), gaps_reported_exact, stated_not_stronger, "
-            "extend_admits_only_proved, and ItemID facts (can_depend_on irreflexive, transitive, precedes in document order, resolves only to "
-            "visible positions) proved about definitions translated from kernel/proof.py and kernel/thm.py on every run. The model passes the "
-            "walked position path like the code (fix C02-5) and is tied to kernel/theory.py and kernel/proof.py by differential runs on "
-            "generated proof objects over a toy rule set (exhaustive small shapes + random; ids != positions, negative and empty ids, "
-            "forward/self/closed-block citations, nested placeholders, ProofItem/Proof objects shared between places, cyclic objects, "
-            "verbatim twins); the tie compares accept/refuse, the kind of refusal (own exception vs. escaping error) and every output of an "
-            "accepted run, never message texts. Every proof the real checker accepts (toy rules and real primitive rules) is judged by an "
-            "independent reference checker.",
+            "parameter (every rule set, every fuel, every proof object). PROVED: accepted_justified + trace_covers (every statement that "
+            "became citable, every item reached through subproof blocks and the result have a derivation built in check order); "
+            "no_gaps_exact / no_gaps_justified; gaps_reported_exact; stated_not_stronger; accepted_id_is_position / shared_item_refused; "
+            "compute_only_computes (every mode: what is derived is derived by the rules from the placeholders and, under compute_only, the "
+            "stated sequents taken on trust — nothing is claimed about those); check_level_trusts_only_leq_level (checking equals checking "
+            "against the rule layer with every eval of a macro above check_level, every expansion at or below it and every ill-kinded "
+            "primitive call disabled); extend_admits_only_proved and extend_list_admits_only_proved (dict table, names may repeat and "
+            "overwrite); on the heap model (walk over the object graph, shared and cyclic objects): accepted_walk_ids, "
+            "accepted_walk_is_tree; ItemID facts (can_depend_on irreflexive, transitive, precedes in document order, resolves only to "
+            "visible positions) about definitions translated from kernel/proof.py and kernel/thm.py on every run, with proofs that do not "
+            "follow the shape of the generated code. NOT PROVED: graph_check_eq_unfolding (heap walk on a graph = tree model on its "
+            "unfolding) — tied three ways on every run instead (implementation on the graph, heap model on the graph, tree model on the "
+            "unfolding). TIE: differential runs on generated proof objects over a toy rule set (exhaustive small shapes + random; ids != "
+            "positions, negative and empty ids, forward/self/closed-block citations, nested placeholders, shared/cyclic objects, twins, "
+            "compute_only, levels 0-3, extension lists with overwritten names); accept/refuse, kind of refusal and every output of an "
+            "accepted run are compared, never message texts. Every proof the real checker accepts (toy rules, all modes, and real primitive "
+            "rules) is judged by an independent reference checker.",
     "note": "Trusted: Lean kernel, propext/Classical.choice/Quot.sound, the harness (generators, toy rule set implemented on both sides, "
-            "reference checker, translator). The rule layer is abstract: real primitive rules and macro bodies are C01/C04. A proof object "
-            "with shared parts reaches the model as its unfolding; that both runs agree is argued in Model.lean and tested, not proved. "
-            "compute_only=True is covered by correspondence only (it trusts statements by design). ProofReport step counters and "
-            "Proof.get_sorrys are not modelled.",
+            "reference checker, translator). The rule layer is abstract: real primitive rules and macro bodies are C01/C04. "
+            "graph_check_eq_unfolding is argued in Model.lean and tested, not proved; the theorems about the tree model therefore speak "
+            "about object graphs only through that tested agreement, the heap theorems speak about them directly. ProofReport step counters "
+            "and Proof.get_sorrys are not modelled.",
     "design_ref": "DESIGN.md 4/C02",
 }
 FINDINGS = [
+    {"status": "fixed", "key": "extend:admitted-unproved:wrong-conclusion", "commit": "fixes/C02-6.patch",
+     "what": "after a theorem name was given a new statement, get_theorem kept serving the cached schematic version of the OLD one: "
+             "checked_extend([a: |- p0, b: |- p0 by theorem a, a: |- p1, c: |- p0 by theorem a]) admitted c as proved"},
     {"status": "fixed", "key": "accepted:cites-enclosing-item", "commit": "e77df27",
      "what": "check_proof(no_gaps=True) returned |- false for a proof in which ONE ProofItem object (id 2, citing 0) sits inside the "
              "stated block 0 and again at top level: the id guard looked the item up by its id instead of comparing it with the walked position"},
